@@ -110,6 +110,30 @@ def plan(tier, seed):
                     yield ("for", "{} for {} {}".format(ds, n, u), (d.year, d.month, d.day, None, None), n, uname, TS)
                     if d.day >= 28 or tier == "thorough":
                         yield ("for", "{} 14:30 für {} {}".format(ds, n, de_u[0] if n == 1 else de_u[1]), (d.year, d.month, d.day, 14, 30), n, uname, TS)
+        # the start written in other notations (month names, weekday in front, connector words, clock after the date)
+        months_ = dict(vocab.months())
+        for d in (date(2024, 2, 29), date(2019, 1, 31), date(2021, 4, 30), date(2018, 12, 31)):  # years that do not read as hh:mm (military heuristic, cf. C05)
+            en = vocab.canon(months_[d.month], (vocab.EN_MONTH[d.month - 1],))
+            de = vocab.canon(months_[d.month], (vocab.DE_MONTH[d.month - 1],))
+            wd = vocab.EN_DOW[d.weekday()][:3]
+            nots = [
+                ("d. Monat yyyy", "{}. {} {}".format(d.day, de, d.year), None),
+                ("Month d yyyy", "{} {} {}".format(en, d.day, d.year), None),
+                ("d Month yyyy", "{} {} {}".format(d.day, en, d.year), None),
+                ("dth of Month yyyy", "{}th of {} {}".format(d.day, en, d.year) if d.day not in (1, 2, 3, 21, 22, 23, 31) else "{}st of {} {}".format(d.day, en, d.year) if d.day in (1, 21, 31) else None, None),
+                ("Dow d Mon yyyy", "{} {} {} {}".format(wd, d.day, en[:3], d.year), None),
+                ("d.m.yyyy hh:mm", "{}.{}.{} 23:30".format(d.day, d.month, d.year), (23, 30)),
+                ("Month d yyyy h:mmpm", "{} {} {} 11:30pm".format(en, d.day, d.year), (23, 30)),
+                ("d Month yyyy at hh:mm", "{} {} {} at 23:30".format(d.day, en, d.year), (23, 30)),
+                ("on d Month yyyy at hh:mm", "on {} {} {} at 23:30".format(d.day, en, d.year), (23, 30)),
+                ("am d. Monat yyyy um hh:mm", "am {}. {} {} um 23:30".format(d.day, de, d.year), (23, 30)),
+            ]
+            for key, stxt, hm in nots:
+                if stxt is None:
+                    continue
+                for n, uname, utxt in ((2, "days", "days"), (45, "minutes", "minutes"), (2, "weeks", "weeks"), (1, "months", "month"), (3, "hours", "hours"), (2, "nights", "nights")):
+                    for conn in ("for", "für"):
+                        yield ("forn", "{} {} {} {}".format(stxt, conn, n, utxt), (d.year, d.month, d.day, hm[0] if hm else None, hm[1] if hm else None), n, uname, key)
         # ranges of a month or more, and of k years + N days (the consistency check must compare the whole length)
         for (a, b) in ((date(2020, 3, 1), date(2020, 4, 1)), (date(2020, 11, 15), date(2021, 11, 18)), (date(2020, 11, 15), date(2022, 11, 18)), (date(2021, 1, 31), date(2021, 3, 3)), (date(2019, 12, 30), date(2020, 1, 2))):
             ln = (b - a).days
@@ -190,6 +214,20 @@ def run_case(case):
         out = {"o": "for:" + ("ok" if ok else "bad"), "nt": n != 1}
         if not ok:
             out["v"] = [viol({"kind": "for", "unit": uname, "with_clock": hh is not None, "amount": n if n <= 1 else ">1"}, "{!r} -> {} expected {}".format(text, fmt(got), fmt(exp)), exp, got)]
+        return out
+    if kind == "forn":
+        _, text, st, n, uname, key = case
+        y, m, d, hh, mm = st
+        start = datetime(y, m, d, hh or 0, mm or 0)
+        exp = ("I", T(y, m, d, hh, mm), add(start, n, uname))
+        got = res_obs(parse(text, TS))
+        ok = got == exp
+        out = {"o": "forn:" + ("ok" if ok else "bad"), "nt": True}
+        if not ok:
+            # is it the default depth limit that loses the reading? (the same text without the limit)
+            got0 = res_obs(parse(text, TS, max_stack_depth=0))
+            cause = "depth_limit_truncation" if got0 == exp else "other"
+            out["v"] = [viol({"kind": "for_notation", "notation": key, "cause": cause}, "{!r} -> {} expected {} (without depth limit: {})".format(text, fmt(got), fmt(exp), fmt(got0)), exp, got)]
         return out
     if kind == "durrange2":
         _, text, a, b, n, ts_s = case
